@@ -2,8 +2,8 @@ use std::collections::{HashMap, HashSet};
 
 use crate::{
     ast::{
-        visit_document, AstNodeWithName, OperationVisitor, OperationVisitorContext,
-        SchemaDocumentExtension,
+        visit_document, AstNodeWithName, FieldByNameExtension, OperationVisitor,
+        OperationVisitorContext, SchemaDocumentExtension, TypeDefinitionExtension,
     },
     static_graphql::query::{Type, Value, VariableDefinition},
     validation::utils::{ValidationError, ValidationErrorContext},
@@ -19,9 +19,16 @@ use super::ValidationRule;
 #[derive(Default)]
 pub struct VariablesInAllowedPosition<'a> {
     spreads: HashMap<Scope<'a>, HashSet<&'a str>>,
-    variable_usages: HashMap<Scope<'a>, Vec<(&'a str, &'a Type)>>,
+    variable_usages: HashMap<Scope<'a>, Vec<(&'a str, &'a Type, bool)>>,
     variable_defs: HashMap<Scope<'a>, Vec<&'a VariableDefinition>>,
     current_scope: Option<Scope<'a>>,
+    /// Name of the directive whose arguments are being visited, if any.
+    current_directive: Option<String>,
+    /// Names of the input object types expected by the enclosing object literals.
+    input_object_stack: Vec<Option<String>>,
+    /// Whether the innermost enclosing argument / input object field declares a default
+    /// value (list items never do).
+    location_default_stack: Vec<bool>,
 }
 
 impl<'a> VariablesInAllowedPosition<'a> {
@@ -31,6 +38,9 @@ impl<'a> VariablesInAllowedPosition<'a> {
             variable_usages: HashMap::new(),
             variable_defs: HashMap::new(),
             current_scope: None,
+            current_directive: None,
+            input_object_stack: Vec::new(),
+            location_default_stack: Vec::new(),
         }
     }
 
@@ -49,7 +59,7 @@ impl<'a> VariablesInAllowedPosition<'a> {
         visited.insert(from.clone());
 
         if let Some(usages) = self.variable_usages.get(from) {
-            for (var_name, var_type) in usages {
+            for (var_name, var_type, location_has_default) in usages {
                 if let Some(var_def) = var_defs.iter().find(|var_def| var_def.name == *var_name) {
                     let expected_type = match (&var_def.default_value, &var_def.var_type) {
                         (Some(default_value), Type::ListType(_))
@@ -63,7 +73,17 @@ impl<'a> VariablesInAllowedPosition<'a> {
                         (_, t) => t.clone(),
                     };
 
-                    if !visitor_context.schema.is_subtype(&expected_type, var_type) {
+                    // A nullable variable may be used in a non-null position that declares
+                    // a default value (IsVariableUsageAllowed, hasLocationDefaultValue).
+                    let location_type: &Type = match var_type {
+                        Type::NonNullType(inner) if *location_has_default => inner.as_ref(),
+                        t => t,
+                    };
+
+                    if !visitor_context
+                        .schema
+                        .is_subtype(&expected_type, location_type)
+                    {
                         user_context.report_error(ValidationError {
                           error_code: self.error_code(),
                             message: format!("Variable \"${}\" of type \"{}\" used in position expecting type \"{}\".",
@@ -172,11 +192,127 @@ impl<'a> OperationVisitor<'a, ValidationErrorContext> for VariablesInAllowedPosi
             &self.current_scope,
             visitor_context.current_input_type_literal(),
         ) {
+            let location_has_default = *self.location_default_stack.last().unwrap_or(&false);
             self.variable_usages
                 .entry(scope.clone())
                 .or_default()
-                .push((variable_name, input_type));
+                .push((variable_name, input_type, location_has_default));
         }
+    }
+
+    fn enter_directive(
+        &mut self,
+        _: &mut OperationVisitorContext<'a>,
+        _: &mut ValidationErrorContext,
+        directive: &crate::static_graphql::query::Directive,
+    ) {
+        self.current_directive = Some(directive.name.clone());
+    }
+
+    fn leave_directive(
+        &mut self,
+        _: &mut OperationVisitorContext<'a>,
+        _: &mut ValidationErrorContext,
+        _: &crate::static_graphql::query::Directive,
+    ) {
+        self.current_directive = None;
+    }
+
+    fn enter_argument(
+        &mut self,
+        visitor_context: &mut OperationVisitorContext<'a>,
+        _: &mut ValidationErrorContext,
+        (argument_name, _): &'a (String, Value),
+    ) {
+        let argument_definitions = match &self.current_directive {
+            Some(directive_name) => visitor_context
+                .schema
+                .directive_by_name(directive_name)
+                .map(|directive_def| &directive_def.arguments),
+            None => visitor_context
+                .current_field()
+                .map(|field_def| &field_def.arguments),
+        };
+        let has_default = argument_definitions
+            .and_then(|defs| defs.iter().find(|def| def.name.eq(argument_name)))
+            .map(|def| def.default_value.is_some())
+            .unwrap_or(false);
+        self.location_default_stack.push(has_default);
+    }
+
+    fn leave_argument(
+        &mut self,
+        _: &mut OperationVisitorContext<'a>,
+        _: &mut ValidationErrorContext,
+        _: &(String, Value),
+    ) {
+        self.location_default_stack.pop();
+    }
+
+    fn enter_list_value(
+        &mut self,
+        _: &mut OperationVisitorContext<'a>,
+        _: &mut ValidationErrorContext,
+        _: &Vec<Value>,
+    ) {
+        self.location_default_stack.push(false);
+    }
+
+    fn leave_list_value(
+        &mut self,
+        _: &mut OperationVisitorContext<'a>,
+        _: &mut ValidationErrorContext,
+        _: &Vec<Value>,
+    ) {
+        self.location_default_stack.pop();
+    }
+
+    fn enter_object_value(
+        &mut self,
+        visitor_context: &mut OperationVisitorContext<'a>,
+        _: &mut ValidationErrorContext,
+        _: &std::collections::BTreeMap<String, Value>,
+    ) {
+        self.input_object_stack.push(
+            visitor_context
+                .current_input_type()
+                .map(|input_type| input_type.name().to_string()),
+        );
+    }
+
+    fn leave_object_value(
+        &mut self,
+        _: &mut OperationVisitorContext<'a>,
+        _: &mut ValidationErrorContext,
+        _: &std::collections::BTreeMap<String, Value>,
+    ) {
+        self.input_object_stack.pop();
+    }
+
+    fn enter_object_field(
+        &mut self,
+        visitor_context: &mut OperationVisitorContext<'a>,
+        _: &mut ValidationErrorContext,
+        (field_name, _): &(String, Value),
+    ) {
+        let has_default = self
+            .input_object_stack
+            .last()
+            .and_then(|type_name| type_name.as_ref())
+            .and_then(|type_name| visitor_context.schema.type_by_name(type_name))
+            .and_then(|input_type| input_type.input_field_by_name(field_name))
+            .map(|input_field| input_field.default_value.is_some())
+            .unwrap_or(false);
+        self.location_default_stack.push(has_default);
+    }
+
+    fn leave_object_field(
+        &mut self,
+        _: &mut OperationVisitorContext<'a>,
+        _: &mut ValidationErrorContext,
+        _: &(String, Value),
+    ) {
+        self.location_default_stack.pop();
     }
 }
 
